@@ -1,6 +1,7 @@
 package scen
 
 import (
+	"math"
 	"context"
 	"fmt"
 	"os"
@@ -268,7 +269,7 @@ func init() {
 					common = v
 				}
 			}
-			lowest := 1 << 30
+			lowest := math.MaxInt
 			for v := range P {
 				if v < lowest {
 					lowest = v
@@ -370,6 +371,18 @@ func init() {
 									out = append(out, explore.Params{"host": h.String(), "plug": pl.String(), "gs": gs, "pa": pa, "env": env, "rep": strconv.Itoa(i)})
 								}
 							}
+						}
+					}
+				}
+			}
+			// versions that do not fit in 32 bits (date / timestamp style version numbers): every pair of sides over
+			// {2, 2^31, 202401011200}
+			big := allSides([]int{2, 1 << 31, 202401011200})
+			for _, h := range big {
+				for _, pl := range big {
+					for _, c := range [][2]string{{"1", "grpc"}, {"1", "rpc"}, {"0", "alt"}} {
+						for _, env := range []string{"sent", "missing"} {
+							out = append(out, explore.Params{"host": h.String(), "plug": pl.String(), "gs": c[0], "pa": c[1], "env": env, "rep": "0"})
 						}
 					}
 				}
